@@ -479,17 +479,62 @@ class CFG(object):
         return None
 
     # ---------------------------------------------------------------- guards
-    def guards(self, nid):
+    @property
+    def rd(self):
+        if getattr(self, "_rd", None) is None:
+            from .dataflow import ReachingDefs
+            self._rd = ReachingDefs(self)
+        return self._rd
+
+    def ctest(self, nid, keep=()):
+        """Test expression of a test/true/false node with single-definition
+        locals inlined (evaluated at the test node)."""
+        n = self.nodes[nid]
+        tn = n.test if n.kind in ("true", "false") else nid
+        key = (tn, frozenset(keep))
+        cache = self.__dict__.setdefault("_ctest", {})
+        if key not in cache:
+            from .dataflow import inline_expr
+            cache[key] = inline_expr(self.rd, self.nodes[tn].ast, tn,
+                                     keep=keep)
+        return cache[key]
+
+    def guards(self, nid, inline=False):
         """[(expr, polarity, branch_node_id)] for every branch node dominating
-        `nid`, with and/or/not decomposed into atoms where sound."""
+        `nid`, as canonical atoms (see sa/canon.py): negative operators are
+        folded into the polarity, operands ordered, and/or/not decomposed where
+        sound; with inline=True single-definition locals are replaced by their
+        defining expression first."""
+        from . import canon
         out = []
         dom = self.dominators().get(nid, set())
         for d in sorted(dom):
             n = self.nodes[d]
             if n.kind in ("true", "false") and d != nid:
-                for e, pol in atoms(n.ast, n.kind == "true"):
+                test = self.ctest(d) if inline else n.ast
+                for e, pol in canon._atoms(test, n.kind == "true"):
                     out.append((e, pol, d))
         return out
+
+    def guard_texts(self, nid, inline=False):
+        from . import canon
+        return {(canon.ctext(e), p) for e, p, _ in self.guards(nid, inline)}
+
+    def has_guard(self, nid, text, polarity=True):
+        """Is the fact `text` (natural source text, any equivalent spelling)
+        with `polarity` among the canonical guards of node nid - either as
+        written or with single-definition locals inlined?"""
+        from . import canon
+        want = canon.query(text, polarity)
+        return want in self.guard_texts(nid) or \
+            want in self.guard_texts(nid, inline=True)
+
+    def cdnf(self, nid, inline=False):
+        """DNF of canonical atoms of a true/false branch node."""
+        from . import canon
+        n = self.nodes[nid]
+        return canon._dnf(self.ctest(nid) if inline else n.ast,
+                          n.kind == "true")
 
     def guard_handlers(self, nid):
         dom = self.dominators().get(nid, set())
@@ -505,8 +550,11 @@ class CFG(object):
         None.  Assignments `name = <constant>` update the valuation, any other
         assignment to a flag makes it U; branch nodes whose test is decided the
         other way by the valuation are pruned."""
+        from . import canon
         names = sorted(flags)
         avoid = set(avoid)
+        assume = canon.canon_env(assume) if assume else None
+        self._keep = frozenset(names)
         start = (src, tuple(flags[n] for n in names))
         prev = {start: None}
         dq = deque([start])
@@ -537,15 +585,20 @@ class CFG(object):
     def _transfer(self, node, vd, assume=None):
         vd = dict(vd)
         if node.kind in ("true", "false"):
+            from . import canon
             env = vd
             if assume:
                 env = dict(vd)
                 env.update(assume)
-            v = eval3(node.ast, env)
+            v = canon.eval3(node.ast, env)
+            if v == U:
+                # the same test with single-definition locals inlined
+                v = canon.eval3(self.ctest(node.id,
+                                           keep=getattr(self, "_keep", ())), env)
             want = T if node.kind == "true" else F
             if v != U and v != want:
                 return None
-            for e, pol in atoms(node.ast, node.kind == "true"):
+            for e, pol in canon._atoms(node.ast, node.kind == "true"):
                 if isinstance(e, ast.Name) and e.id in vd:
                     vd[e.id] = T if pol else F
             return vd
